@@ -64,6 +64,21 @@ class Forward:
                 if m and len(args) == 1:
                     e = ("cast", args[0], m.group(2))
                 self.events.append((b, "call", callee_of(t), args))
+                if callee_of(t).endswith("core::mem::replace") and len(args) == 2:
+                    # `mem::replace(&mut place, v)`: yields what the place held and stores v there
+                    key0 = self._mem_key(args[0])
+                    if key0 is not None:
+                        if key0 in env["M"]:
+                            old = env["M"][key0]
+                        elif "[" in key0 and any(k.startswith(key0[:key0.rindex("[")] + "[") and k != key0 for k in env["M"]):
+                            old = ("mayalias", key0)
+                        else:
+                            old = ("init", key0)
+                        self.events.append((b, "store", strip(args[0]), args[1]))
+                        env["M"][key0] = args[1]
+                        self.store(env, t["dest"], old)
+                        self.env_out[b] = env
+                        continue
                 # a `&mut` argument into memory we track: the callee may write it -> havoc that path
                 for a in t["args"]:
                     if a["k"] in ("copy", "move") and a["pl"]["ty"].startswith("&mut"):
